@@ -30,7 +30,8 @@ const (
 	mTxt  = 1 << kTxt
 	mCut  = 1 << kCut
 	mMst  = 1 << kMst
-	mECDS = mAcc | mCut
+	mUtx  = 1 << kUtx
+	mECDS = mAcc | mCut | mUtx
 )
 
 // field positions inside the body list
@@ -61,6 +62,8 @@ func setSig(wt *wireTx, i int, sg sigTriple) {
 		wt.body.kids[7] = blist(bnum(sg.v), bnum(sg.r), bnum(sg.s))
 	case kCut:
 		wt.body.kids[1].kids[i] = blist(bnum(sg.v), bnum(sg.r), bnum(sg.s))
+	case kUtx:
+		wt.body.kids[7] = blist(bnum(sg.v), bnum(sg.r), bnum(sg.s))
 	}
 }
 
@@ -354,6 +357,59 @@ var catalogue = []tamper{
 		l.kids = []*item{e, e.clone(), e.clone(), e.clone()}
 		return true
 	}},
+	{"cut-cosigners-frame-victim", mCut, false, func(x *tamperCtx, wt *wireTx) bool {
+		// the listed signers collude: they name a victim as sender and sign the
+		// new main info themselves; the victim signs nothing
+		m := x.w.signers[1]
+		v := x.otherUser(x.orig.holder)
+		if m == nil || v == nil || m.entries[v.a20] > 0 {
+			return false
+		}
+		wt.body.kids[0].kids[0] = bstr(v.addr[:])
+		sigs := &item{list: true}
+		for _, u := range x.w.users {
+			if m.entries[u.a20] > 0 {
+				sg := indepSign(wt.signedFields(), x.w.p, u.secret)
+				sigs.kids = append(sigs.kids, blist(bnum(sg.v), bnum(sg.r), bnum(sg.s)))
+			}
+		}
+		if len(sigs.kids) == 0 {
+			return false
+		}
+		wt.body.kids[1] = sigs
+		return true
+	}},
+	{"mst-minority-resign", mMst, false, func(x *tamperCtx, wt *wireTx) bool {
+		// one validator alone re-signs a main info that appoints the attacker
+		if len(x.w.vals) < 2 {
+			return false
+		}
+		l := wt.body.kids[0].at(2, 1)
+		if l == nil || !l.list || len(l.kids) == 0 || !l.kids[0].list || len(l.kids[0].kids) != 2 {
+			return false
+		}
+		l.kids[0].kids[1] = bstr(x.t.Bytes(20))
+		msg, _, _, ok := mstMessage(wt.body.kids[0])
+		if !ok {
+			return false
+		}
+		// the weakest validator
+		weak := x.w.vals[0]
+		for _, v := range x.w.vals {
+			if v.power < weak.power {
+				weak = v
+			}
+		}
+		if 3*weak.power > 2*x.w.totalVP {
+			return false
+		}
+		sg, err := weak.key.Priv.Sign(msg)
+		if err != nil {
+			return false
+		}
+		wt.body.kids[1] = blist(blist(bstr([]byte(weak.addr)), bstr(sg.Bytes())))
+		return true
+	}},
 	// ------------------------------------------------ signature values (secp256k1)
 	{"r-zero", mECDS, true, sigEdit(func(x *tamperCtx, wt *wireTx, sg sigTriple) (sigTriple, bool) { sg.r = new(big.Int); return sg, true })},
 	{"s-zero", mECDS, true, sigEdit(func(x *tamperCtx, wt *wireTx, sg sigTriple) (sigTriple, bool) { sg.s = new(big.Int); return sg, true })},
@@ -500,10 +556,19 @@ func applicable(k txKind) []int {
 
 // mutate applies one or (sometimes) two catalogue entries to a copy of s.
 func (x *tamperCtx) mutate(idx []int) (*wireTx, string, bool) {
+	wt, name, _, ok := x.mutateF(idx)
+	return wt, name, ok
+}
+
+// mutateF also tells whether a signed field (not a signature value) was edited.
+func (x *tamperCtx) mutateF(idx []int) (*wireTx, string, bool, bool) {
+	if len(idx) == 0 {
+		return nil, "", false, false
+	}
 	wt := x.orig.w.clone()
 	e := &catalogue[idx[x.t.Int(len(idx))]]
 	if !e.apply(x, wt) {
-		return nil, "", false
+		return nil, "", false, false
 	}
 	name := e.name
 	if !e.sig && x.t.Bool(1, 6) { // multi-field modification
@@ -513,7 +578,7 @@ func (x *tamperCtx) mutate(idx []int) (*wireTx, string, bool) {
 		}
 	}
 	if !wt.wellFormed() || string(wt.bytes()) == string(x.orig.raw) {
-		return nil, "", false
+		return nil, "", false, false
 	}
-	return wt, name, true
+	return wt, name, !e.sig, true
 }
